@@ -9,9 +9,9 @@ HARNESSES = {
 }
 RULE = ("sequential histories of Send(buffer of size s) / Step(0) under a send script (pass | short k | fail | zero) / "
         "peer-drain / peer-close / destroy on one SocketTcpAsync over loopback, s in {0,1,2,3,7,64,1000,5000} plus "
-        "70k-260k buffers against a 4.6 kB SO_SNDBUF (real partial writes), send pool N in {1,2,3,#sends}; plus real-thread "
+        "9k-70k buffers against a 4.6 kB SO_SNDBUF (real partial writes), send pool N in {1,2,3,#sends}; plus real-thread "
         "runs (1-4 producer threads x 1-6 buffers + a Run() thread, scripted short writes) checked against the property only. "
-        "thorough adds every script of length <= 4 over {pass, short 1, short 3, fail} for 3 queued buffers. "
+        "thorough adds every script of length <= 6 over {pass, short 1, short 3, fail} for 3 queued buffers. "
         "non-trivial = at least one partial write or failed send happened and at least two buffers were queued at once, or an mt run; "
         "distinct op sequences.")
 ASSUMPTIONS = [
@@ -35,7 +35,7 @@ def nontrivial(ops, tags):
 
 
 SIZES = [0, 1, 2, 3, 7, 64, 1000, 5000]
-BIG = [70000, 131072, 200000, 260000]
+BIG = [9000, 20000, 40000, 70000]
 
 
 def script(rng, big):
@@ -77,7 +77,7 @@ def rand_history(rng, big=False):
             destroyed = True
     if not destroyed:
         if not closed:
-            for _ in range(rng.randrange(0, 6)):
+            for _ in range(rng.randrange(0, 14 if big else 6)):
                 ops.append("step pass")
                 if big:
                     ops.append("drain")
@@ -88,12 +88,12 @@ def rand_history(rng, big=False):
 
 def gen(rng, tier):
     cases = []
-    count = 500 if tier == "quick" else 6000
+    count = 800 if tier == "quick" else 30000
     for k in range(count):
         cases.append(("asend", "s%d" % k, rand_history(rng, big=False)))
-    for k in range(24 if tier == "quick" else 200):
+    for k in range(30 if tier == "quick" else 1000):
         cases.append(("asend", "b%d" % k, rand_history(rng, big=True)))
-    for k in range(60 if tier == "quick" else 600):
+    for k in range(80 if tier == "quick" else 2000):
         th = rng.randrange(1, 5)
         per = rng.randrange(1, 7)
         cases.append(("asend", "m%d" % k, ["mt %d %d %d %d %d" % (th, per, rng.choice([0, 1, 5, 40, 300]),
@@ -101,10 +101,10 @@ def gen(rng, tier):
     if tier == "thorough":
         alphabet = ["step pass", "step short 1", "step short 3", "step fail"]
         k = 0
-        for L in range(1, 5):
+        for L in range(1, 7):
             for h in itertools.product(alphabet, repeat=L):
                 ops = ["sock 3 0", "send 1 5", "send 2 0", "send 3 4"] + list(h) + \
-                      ["drain", "step pass", "step pass", "step pass", "step pass", "step pass", "drain", "destroy"]
+                      ["drain"] + ["step pass"] * 9 + ["drain", "destroy"]
                 cases.append(("asend", "x%d" % k, ops))
                 k += 1
     return cases
